@@ -103,9 +103,9 @@ def install(E):
             ('states_only_given', z3.ForAll([s], z3.Implies(V(h1, k)[s], VS[s]))),
             ('states_all_given', z3.ForAll([s], z3.Implies(optset(c.S)[s], V(h1, k)[s]))),
             ('states_all_ends', z3.ForAll([s, d], z3.Implies(Rs[s, d], z3.And(V(h1, k)[s], V(h1, k)[d])))),
-            ('transitions', z3.ForAll([s, d], edge(h1, k, s, d) == Rs[s, d])),
+            ('transitions', hp.FA([s, d], edge(h1, k, s, d) == Rs[s, d], [succ(h1, k, s)[d], Rs[s, d]])),
             ('initial_states', z3.ForAll([s], S0(h1, k)[s] == z3.And(VS[s], S0s[s]))),
-            ('labels', z3.ForAll([s, a], z3.Implies(VS[s], Lab(h1, k, s)[a] == z3.And(dom[s], val[s][a])))),
+            ('labels', hp.FA([s, a], z3.Implies(VS[s], Lab(h1, k, s)[a] == z3.And(dom[s], val[s][a])), [Lab(h1, k, s)[a]])),
             ('wf', wfK(h1, k)),
             ('fresh', fresh_kripke(c.h0, h1, k)),
         ]
@@ -141,10 +141,10 @@ def install(E):
             ('states_only_given', z3.ForAll([s], z3.Implies(V(h, k)[s], vstar(c)[s]))),
             ('states_all_given', z3.ForAll([s], z3.Implies(optset(c.S)[s], V(h, k)[s]))),
             ('states_all_ends', z3.ForAll([s, t], z3.Implies(optrel(c.R)[s, t], z3.And(V(h, k)[s], V(h, k)[t])))),
-            ('transitions_are_given', z3.ForAll([s, t], edge(h, k, s, t) == optrel(c.R)[s, t])),
+            ('transitions_are_given', hp.FA([s, t], edge(h, k, s, t) == optrel(c.R)[s, t], [succ(h, k, s)[t]])),
             ('total', total(h, k)),
             ('graph_wf', wfG(h, k)),
-            ('initial_states', z3.ForAll([s], S0(h, k)[s] == z3.And(vstar(c)[s], optset(c.S0)[s]))),
+            ('initial_states', hp.FA([s], S0(h, k)[s] == z3.And(vstar(c)[s], optset(c.S0)[s]), [S0(h, k)[s]])),
             ('S0_fresh', z3.And(h.field('S0', k) >= c.h0.alloc, h.field('S0', k) < he.alloc)),
             ('graph_fresh', fresh_graph(c.h0, h, k)),
         ] + frame(he, h, he.alloc, {'dd': own, 'dv': own})
@@ -218,7 +218,8 @@ def install(E):
 
     def tr_ens(c):
         s, d = X('s'), X('d')
-        return [('list_of_transitions', z3.ForAll([s, d], c.h1.rel_of(c.res.t)[s, d] == edge(c.h0, c.self.t, s, d))),
+        return [('list_of_transitions', hp.FA([s, d], c.h1.rel_of(c.res.t)[s, d] == edge(c.h0, c.self.t, s, d),
+                                             [c.h1.rel_of(c.res.t)[s, d], succ(c.h0, c.self.t, s)[d]])),
                 ('fresh', c.res.t >= c.h0.alloc)]
 
     reg(Contract(
@@ -231,9 +232,11 @@ def install(E):
         inK = (lambda x: z3.BoolVal(True)) if keep is None else (lambda x: keep[x])
         return [
             ('states', z3.ForAll([s], V(h1, k1)[s] == z3.And(V(h0, k0)[s], inK(s)))),
-            ('transitions', z3.ForAll([s, d], edge(h1, k1, s, d) == z3.And(edge(h0, k0, s, d), inK(s), inK(d)))),
+            ('transitions', hp.FA([s, d], edge(h1, k1, s, d) == z3.And(edge(h0, k0, s, d), inK(s), inK(d)),
+                                 [succ(h1, k1, s)[d], succ(h0, k0, s)[d]])),
             ('initial_states', z3.ForAll([s], S0(h1, k1)[s] == z3.And(S0(h0, k0)[s], inK(s)))),
-            ('labels', z3.ForAll([s, a], z3.Implies(z3.And(V(h0, k0)[s], inK(s)), Lab(h1, k1, s)[a] == Lab(h0, k0, s)[a]))),
+            ('labels', hp.FA([s, a], z3.Implies(z3.And(V(h0, k0)[s], inK(s)), Lab(h1, k1, s)[a] == Lab(h0, k0, s)[a]),
+                            [Lab(h1, k1, s)[a], Lab(h0, k0, s)[a]])),
         ]
 
     def clone_ens(c):
